@@ -10,7 +10,7 @@ import BSModel.Gen.Entities
                                               pre-order:  D:<cps>;C:<cps> | …
     c05 rspec  <flavour> <fmt> <tbl> <tree>   the same through `renderSpec`/`renderL`
     c05 trip   <flavour> <fmt> <tree>         the root's children as a forest:
-                                              repr=<0|1> # emit=<events> # norm=<forest> # build=<forest> # norm2=<forest>
+                                              repr=<0|1> # emit=<events> # norm=<forest> # build=<forest> # norm2=<forest> # repr2=<0|1> # dst=<0|1 DoctypeStable>
     c05 top <rootAttr> <chain> <arg> <tbl> <tree>   `decode(formatter=arg)` incl. `formatter_for_name`/`_is_xml`:  D:<cps> | KeyError
     c05 subst <cps> | c05 quote <cps>         `substitute_xml`, `quoted_attribute_value`
 
@@ -173,7 +173,7 @@ def trip (f : Fmt) (root : Node) : String :=
   let ds := root.kids
   let evs := emitRL f ds
   let nrm := normaliseL p f ds
-  s!"repr={bit (representableL p f false ds)} # emit={"|".intercalate (evs.map showEv)} # norm={showForest nrm} # build={showForest (build p evs)} # norm2={showForest (normaliseL p f nrm)} # repr2={bit (representableL p f false nrm)}"
+  s!"repr={bit (representableL p f false ds)} # emit={"|".intercalate (evs.map showEv)} # norm={showForest nrm} # build={showForest (build p evs)} # norm2={showForest (normaliseL p f nrm)} # repr2={bit (representableL p f false nrm)} # dst={bit (dstableL p (ctxOf p [rootFrame]) false ds)}"
 
 def withTree (toks : List String) (k : Node → String) : String :=
   match parseNode (toks.length + 1) toks with
